@@ -410,6 +410,20 @@ pub fn run(cfg: &Cfg) -> Stats {
                 eval(&format!("red {}", base + kk), &mut st, true);
             }
         }
+        // every word of the vocabulary in three spellings as the third colour / as an unknown word after two colours, and as
+        // the first word: the error names the word exactly as the caller wrote it
+        for w in &vocab {
+            if !mine() {
+                continue;
+            }
+            let upper = w.to_uppercase();
+            let mixed: String = w.chars().enumerate().map(|(i, c)| if i % 2 == 0 { c.to_ascii_uppercase() } else { c }).collect();
+            for sp in [w.clone(), upper, mixed] {
+                for s in [format!("red blue {sp}"), format!("RED\tBlue  {sp} bold"), format!("{sp}x"), format!("bold {sp}~ red"), format!("#ABCDEF #abc {sp}")] {
+                    eval(&s, &mut st, true);
+                }
+            }
+        }
         // near-miss numbers
         for v in ["00", "007", "0255", "0256", "1000", "99999999999999999999", "+5", "+255", "-0", "-2", "--1", "1.0", "1e2", "0x10", "\u{ff11}", "١", "1 2 3", "#", "##000", "#0000000"] {
             if mine() {
